@@ -502,8 +502,9 @@ def replay(harness, inp):
     from fractions import Fraction as F
     import pdfminer.pdftypes as pt
     from pdfminer.psparser import LIT
-    v = {k: F(x) if not isinstance(x, bool) else x for k, x in inp["vals"].items()}
-    g = lambda n, d=0: v.get(n, F(d))
+    # operands as floats: the real code tests isinstance(x, (int, float)) on TJ adjustments, which Fractions would fail
+    v = {k: float(F(x)) if not isinstance(x, bool) else x for k, x in inp["vals"].items()}
+    g = lambda n, d=0: v.get(n, float(d))
     W = {c: g("w%d" % c) for c in CODES}
 
     def run(prog, ctm=I6, it_dev=None):
@@ -528,7 +529,7 @@ def replay(harness, inp):
             if not near([c.adv], [e["adv"]]):
                 return "glyph %d %r: adv %r, text model %r" % (i, e["text"], float(c.adv), float(e["adv"]))
             m = e["matrix"]
-            y0 = F(-1, 5) * e["fs"] + e["rise"]
+            y0 = -0.2 * e["fs"] + e["rise"]
             pts = [(m[0] * x + m[2] * y + m[4], m[1] * x + m[3] * y + m[5]) for x in (0, e["adv"]) for y in (y0, y0 + e["fs"])]
             bb = (min(p[0] for p in pts), min(p[1] for p in pts), max(p[0] for p in pts), max(p[1] for p in pts))
             if inp.get("bbox", True) and not near(c.bbox, bb):
